@@ -11,15 +11,17 @@ Local Open Scope nat_scope.
    edges, both fixed-step solvers, EVERY hierarchy depth, any declared default of the input variable and every list of
    inputs in a form the property speaks about (1-D, (N,1), or (N,n) with n = #targets under vectorization; arrays at
    least as long as the number of steps; target lists without repetition), run() returns the trajectory driven by
-   spec_u, for any number of steps.  rows_fit / frame_ok are C03's conditions on (T, dt) (here dts = dt). *)
-Theorem C08_full : forall s vectorize depth T dt udef W inputs x0,
-  forallb (input_ok vectorize (rnd (T / dt))) inputs = true -> rows_fit T dt dt = true -> frame_ok T dt = true ->
-  run_inputs s vectorize depth T dt udef W inputs x0 = Rows (spec_run_inputs s T dt udef W inputs x0).
+   spec_u, for any number of steps, any sampling step and any cutoff (the arrays are read with the step counter k, the
+   stored rows are C03's).  rows_fit / frame_ok are C03's conditions on (T, dt, dts). *)
+Theorem C08_full : forall s vectorize depth T dt dts cutoff udef W inputs x0,
+  let d := match dts with Some d => d | None => dt end in
+  forallb (input_ok vectorize (rnd (T / dt))) inputs = true -> rows_fit T dt d = true -> frame_ok T d = true ->
+  run_inputs s vectorize depth T dt dts cutoff udef W inputs x0 = Rows (spec_run_inputs s T dt dts cutoff udef W inputs x0).
 Proof. exact run_inputs_full. Qed.
 Print Assumptions C08_full.
 
-Theorem C08_depth_irrelevant : forall s vectorize depth T dt udef W inputs x0,
-  run_inputs s vectorize depth T dt udef W inputs x0 = run_inputs s vectorize 0 T dt udef W inputs x0.
+Theorem C08_depth_irrelevant : forall s vectorize depth T dt dts cutoff udef W inputs x0,
+  run_inputs s vectorize depth T dt dts cutoff udef W inputs x0 = run_inputs s vectorize 0 T dt dts cutoff udef W inputs x0.
 Proof. exact run_inputs_depth_irrelevant. Qed.
 Print Assumptions C08_depth_irrelevant.
 
@@ -139,7 +141,7 @@ Print Assumptions C08_interp_at_sample.
 
 (* -------- regression of fix D89 (was C08_refuted_depth2: AttributeError at hierarchy depth >= 2) -------- *)
 Theorem C08_depth2_after_D89 :
-  outcome_eqb (run_inputs Euler true 2 (mkq 1 1) (mkq 1 4) (mkq 0 1) [[mkq 0 1]] [(A1 [mkq 1 1; mkq 2 1; mkq 4 1; mkq 8 1], [0])] [mkq 1 2])
+  outcome_eqb (run_inputs Euler true 2 (mkq 1 1) (mkq 1 4) None (mkq 0 1) (mkq 0 1) [[mkq 0 1]] [(A1 [mkq 1 1; mkq 2 1; mkq 4 1; mkq 8 1], [0])] [mkq 1 2])
               (Rows [[mkq 0 1; mkq 1 2]; [mkq 1 4; mkq 3 4]; [mkq 1 2; mkq 5 4]; [mkq 3 4; mkq 9 4]]) = true.
 Proof. exact depth2_after_D89. Qed.
 Print Assumptions C08_depth2_after_D89.
@@ -150,9 +152,9 @@ Example C08_nonvacuous :
   let inputs := [(A2 [[mkq 1 1; mkq 10 1]; [mkq 2 1; mkq 20 1]; [mkq 4 1; mkq 40 1]; [mkq 8 1; mkq 80 1]], [0; 1]);
                  (A1 [mkq 1 1; mkq (-1) 1; mkq 3 1; mkq 5 1], [1])] in
   inputs_guard true (mkq 1 1) (mkq 1 4) inputs = true /\
-  outcome_eqb (run_inputs Heun true 3 (mkq 1 1) (mkq 1 4) (mkq 0 1) [[mkq 0 1; mkq 0 1]; [mkq 2 1; mkq 0 1]] inputs [mkq 1 2; mkq 1 1])
-              (Rows (spec_run_inputs Heun (mkq 1 1) (mkq 1 4) (mkq 0 1) [[mkq 0 1; mkq 0 1]; [mkq 2 1; mkq 0 1]] inputs [mkq 1 2; mkq 1 1])) = true /\
-  row_eqb (nth 1 (spec_run_inputs Heun (mkq 1 1) (mkq 1 4) (mkq 0 1) [[mkq 0 1; mkq 0 1]; [mkq 2 1; mkq 0 1]] inputs [mkq 1 2; mkq 1 1]) [])
+  outcome_eqb (run_inputs Heun true 3 (mkq 1 1) (mkq 1 4) None (mkq 0 1) (mkq 0 1) [[mkq 0 1; mkq 0 1]; [mkq 2 1; mkq 0 1]] inputs [mkq 1 2; mkq 1 1])
+              (Rows (spec_run_inputs Heun (mkq 1 1) (mkq 1 4) None (mkq 0 1) (mkq 0 1) [[mkq 0 1; mkq 0 1]; [mkq 2 1; mkq 0 1]] inputs [mkq 1 2; mkq 1 1])) = true /\
+  row_eqb (nth 1 (spec_run_inputs Heun (mkq 1 1) (mkq 1 4) None (mkq 0 1) (mkq 0 1) [[mkq 0 1; mkq 0 1]; [mkq 2 1; mkq 0 1]] inputs [mkq 1 2; mkq 1 1]) [])
           [mkq 1 4; mkq 3 4; mkq 65 16] = true.
 Proof. repeat split; vm_compute; reflexivity. Qed.
 Print Assumptions C08_nonvacuous.
